@@ -70,13 +70,29 @@ func init() {
 			must(err)
 			return m
 		}
-		for k := 0; k < 3; k++ {
+		for k := 0; k < 24; k++ { // enough exchanges for a buffered or periodically reseeded source to wrap around
 			mrand.Seed(11)
 			must(newClient().CreateConnection())
 		}
 		mu.Lock()
 		for _, name := range []string{"nonce", "new_nonce", "g_b"} {
 			vs := seen[name]
+			// a value from the OS source has no long constant stretch (8 equal bytes: chance 2^-56 per position)
+			for i, v := range vs {
+				rep.Evaluations++
+				run := 1
+				for j := 1; j < len(v); j++ {
+					if v[j] == v[j-1] {
+						run++
+						if run >= 8 {
+							rep.Disagree("C19:constant-stretch:"+name, fmt.Sprintf("%s of key exchange %d has %d equal bytes in a row: %x", name, i+1, run, truncHex(v)), map[string]interface{}{"what": name, "exchange": i + 1})
+							break
+						}
+					} else {
+						run = 1
+					}
+				}
+			}
 			for i := 0; i < len(vs); i++ {
 				for j := i + 1; j < len(vs); j++ {
 					same(fmt.Sprintf("%s of key exchanges %d and %d in one process", name, i+1, j+1), vs[i], vs[j])
